@@ -34,6 +34,7 @@ class _Stop(Exception):
     """a hang-type violation was recorded: do not spend more ceilings on this case"""
 
 
+CTOR_RES = {}     # session serial -> resource tracked by the session object's constructor
 REG = {}          # token -> list of Resource
 SESS = {}         # token -> (weakref to session instance, serial)
 LOCK = threading.Lock()
@@ -88,6 +89,10 @@ def _classes():
             with LOCK:
                 SERIAL[0] += 1
                 self.serial = SERIAL[0]
+            # a session object may acquire a resource for its connection right in its constructor
+            self.res = Resource("ctor-%d" % self.serial)
+            CTOR_RES[self.serial] = self.res
+            current_context.track_resource(self.res)
 
         def touch(self, token):
             with LOCK:
@@ -110,11 +115,11 @@ def case_strategy(draw, timeout_shard=False):
     if timeout_shard:
         c = draw(conn_spec)
         c["ending"] = draw(st.sampled_from(["server-timeout", "server-timeout", "orderly", "abort-offset", "security", "bad-magic"]))
-        return {"conns": [c], "order": [0]}
+        return {"conns": [c], "order": [0], "hook_raises": draw(st.integers(0, 3)) == 0}
     n = draw(st.integers(1, 3))
     conns = [draw(conn_spec) for _ in range(n)]
     order = draw(st.permutations(list(range(n))))
-    return {"conns": conns, "order": list(order)}
+    return {"conns": conns, "order": list(order), "hook_raises": draw(st.integers(0, 3)) == 0}
 
 
 _live = {}
@@ -159,6 +164,7 @@ def run_case(case, servertype=None, commtimeout=None, keep=False):
 
     baseline = S.busy_workers()
     peers = []
+    S.daemon.v_hook_raises = bool(case.get("hook_raises"))
     try:
         # ---- open all connections, do the work on them
         for i, c in enumerate(case["conns"]):
@@ -206,6 +212,9 @@ def run_case(case, servertype=None, commtimeout=None, keep=False):
                 ref, serial = SESS[tok]
                 if ref() is None:
                     viol("session-dropped-on-open-connection", "session instance of an open connection vanished (%s)" % when)
+                cr = CTOR_RES.get(serial)
+                if cr is not None and cr.closed:
+                    viol("resource-closed-on-open-connection", "the resource tracked by the session object's constructor was closed while its connection is open (%s)" % when)
 
         def check_ended(info):
             tok, conn, c = info["token"], info["conn"], info["spec"]
@@ -240,6 +249,11 @@ def run_case(case, servertype=None, commtimeout=None, keep=False):
                     raise _Stop()
             if c["session"]:
                 ref, serial = SESS[tok]
+                cr = CTOR_RES.get(serial)
+                if cr is not None:
+                    live.wait_for(lambda: cr.closed >= 1, CEILING)
+                    if cr.closed != 1:
+                        viol("constructor-tracked-resource-close-count", "resource tracked in the session object's constructor was closed %d times after its connection ended (%s)" % (cr.closed, c["ending"]))
                 gc.collect()
                 if ref() is not None:
                     # give the server thread a moment to leave the frame that may still reference the instance
@@ -342,6 +356,8 @@ def run_case(case, servertype=None, commtimeout=None, keep=False):
         # the daemon may be left with stuck connections: start the next case on a fresh one
         keep = False
     finally:
+        S.daemon.v_hook_raises = False
+        CTOR_RES.clear()
         for info in peers:
             info["peer"].close()
             with LOCK:
@@ -396,7 +412,7 @@ def run(ctx):
                     ctx.observe(case, run_case(case, st_, to, keep=True), True, _labels(case) + ["offset-enumeration"])
             ctx.exhaustive = True
             return
-        n = ctx.n(120, 1500) if to == 0 else ctx.n(25, 200)
+        n = ctx.n(300, 1500) if to == 0 else ctx.n(40, 200)
         ctx.search(case_strategy(timeout_shard=to > 0), lambda c: run_case(c, st_, to, keep=True), n, nontrivial=_nontrivial, labels=_labels,
                    name="cleanup%s%s" % (st_, to), max_rounds=1, shrink_budget_s=20)   # one violation per shard: a failing case costs a hang ceiling
     finally:
